@@ -27,6 +27,11 @@ static inline void exec_call(C& c, const Ev& ev, Res& r)
 #endif
         default: break;
     }
+#ifdef VF_REAL
+    r.idx_n = c.m_keyed_elements.size();
+#else
+    r.idx_n = c.m_keyed_elements.m_size;
+#endif
     r.size  = c.size();
     r.empty = c.empty();
 #if T_CAPPED
